@@ -460,7 +460,13 @@ def rewrite_case(rng, sess: Session):
             before = [json.loads(l) for l in open(path, "rb").read().split(b"\n") if l] if os.path.exists(path) else []
             rewrite_jsonl(name, before)
             b1 = open(path, "rb").read()
-            after = [json.loads(l) for l in b1.split(b"\n") if l]
+            try:
+                after = [json.loads(l) for l in b1.split(b"\n") if l]
+            except Exception as ex:
+                sess.evaluations += 1
+                sess.count("rewrites_checked")
+                sess.violation("rewrite-produced-unparsable-line", {"name": name, "n": len(recs), "ci": ci, "records": before}, repr(ex)[:160])
+                return
             rewrite_jsonl(name, after)
             b2 = open(path, "rb").read()
             sess.evaluations += 1
